@@ -42,7 +42,9 @@ structure PoolOk (pool : List Tx) : Prop where
 
 /-- The policy leaves room for the empty block, and values fit their Go types. -/
 structure EnvOk (e : Env) : Prop where
-  base : BLOCK_HEADER_OVERHEAD * WITNESS_SCALE + e.cbWeight < e.maxWeight
+  base : e.headerOverhead * WITNESS_SCALE + e.cbWeight < e.maxWeight
+  /-- the generator reserves at least the header and a maximal transaction-count varint -/
+  overhead : BLOCK_HEADER_OVERHEAD ≤ e.headerOverhead
   maxU32 : e.maxWeight < U32
   cbSig : e.cbSigCost ≤ MAX_BLOCK_SIGOPS_COST
   /-- the node's clock is at most two hours behind the median time -/
